@@ -200,6 +200,9 @@ def handleScan (ds : DState) (sc : ScanCase) : DState × Json :=
           | none => []
           | some ctx =>
             let fatalHere := sc.obs.outcome != "ok" && (sc.obs.recs.getLast?.map (·.name)) == some ob.name
+            -- the cloud no longer has this group's cloud group (deleted out of band): what the scan should have asked of
+            -- it cannot be judged
+            let gone := sc.cloud.isSome && !(sc.cloud.getD []).any (fun a => a.name == ctx.g.asg.name)
             -- nodes whose fetched copy (GET accepted) still carried the escalator taint: only an accepted UPDATE untaints them
             let stillTainted : List String := (paired.filter (fun t => t.1 == ob.name)).filterMap (fun t => match t.2.1.call, t.2.2 with
               | .getNode _, .node nd => if t.2.1.ok && hasTaint escKey nd then some nd.name else none
@@ -207,7 +210,7 @@ def handleScan (ds : DState) (sc : ScanCase) : DState × Json :=
             let m05 := if fatalHere || seen'.lookup ob.name == some (-1, -1) then [] else
               (Spec.C05.badFromZero ctx (seen'.lookup ob.name) ob.delta).flatMap (fun t =>
                 ["C05|" ++ t] ++ (if ctx.view.nodes.any (·.unschedulable) then ["C09|cordoned-node-in-view:" ++ t] else []))
-            (monitors ctx ob.j (fatalHere && sc.obs.outcome == "fatal:not-in-group") ++ monitorsWant ctx ob.delta ob.j fatalHere stillTainted ++ m05).map (fun m => match m.splitOn "|" with
+            (monitors ctx ob.j (fatalHere && sc.obs.outcome == "fatal:not-in-group") ++ monitorsWant ctx ob.delta ob.j (fatalHere || gone) stillTainted ++ m05).map (fun m => match m.splitOn "|" with
             | [p, d] => p ++ ":" ++ ob.name ++ ":" ++ d
             | _ => m ++ ":" ++ ob.name))
     -- which oracles were applicable to this scan (probed with an observation they would have to reject):
